@@ -66,6 +66,20 @@ def check_case(case):
             break
         prev = f
     r.check("formula", worst, 1e-12, el + ":formula", "FormFactor = sum a_i exp(-b_i s^2) + c", None, worst)
+    # the same formula for every kind of argument the function accepts today: numpy scalar, 0-d array, 1-d array, list-derived array
+    import numpy as np
+
+    ga = np.array(g)
+    refa = np.array([O.formfactor_ref(coef, s) for s in g])
+    for nm, arg in (("ndarray", ga), ("float64", np.float64(g[7])), ("0-d array", np.array(g[7])), ("2-d array", ga[:6].reshape(2, 3)), ("float32 array", ga[:50].astype(np.float32))):
+        try:
+            out = np.asarray(structure.FormFactor(el, arg), float)
+            want = np.array([O.formfactor_ref(coef, float(s)) for s in np.asarray(arg, float).reshape(-1)]).reshape(np.shape(arg))
+            dv = float(np.max(np.abs(out - want) / np.maximum(1.0, np.abs(want)))) if out.shape == want.shape else float("inf")
+        except Exception as ex:
+            dv = float("inf")
+            out = repr(ex)
+        r.check("formula-" + nm, dv, 1e-6 if nm == "float32 array" else 1e-12, el + ":formula:" + nm, "FormFactor = sum a_i exp(-b_i s^2) + c for %s argument" % nm, None, out if isinstance(out, str) else None)
     # analytic monotonicity: f'(s) = -2 s sum a_i b_i exp(-b_i s^2) < 0 for s>0 if all a_i b_i >= 0 and one > 0
     ab = [coef[i] * coef[i + 4] for i in range(4)]
     if all(x >= 0 for x in ab) and any(x > 0 for x in ab):
